@@ -151,6 +151,47 @@ func runC35Immutable(c *Ctx) {
 	c.CheckAt("C35.R4", "reads of the precomputed tag table found", "broker_redis.go", nUses >= 2, fmt.Sprintf("%d indexed uses, fields %v", nUses, keysOf(taintedFields)))
 }
 
+// runC35Lookup (C35.R5): the constant-table validation covers exactly the bundled tables, so the runtime
+// lookup must hand out nothing else: every non-nil result of FindTags is the table entry for the
+// requested count itself — not a prefix, a concatenation or a computed list (whose slots and balance
+// nobody validated).
+func runC35Lookup(c *Ctx) {
+	w := c.W
+	ft := w.Func("internal/redispartition", "FindTags")
+	if ft == nil || len(ft.Params) < 1 {
+		return
+	}
+	n := 0
+	EachInstr(ft, func(in ssa.Instruction) {
+		r, ok := in.(*ssa.Return)
+		if !ok {
+			return
+		}
+		vals := retVals(r)
+		if len(vals) != 2 || isNilConst(vals[0]) {
+			return
+		}
+		n++
+		v := vals[0]
+		okV := false
+		detail := D(v)
+		// the value of a lookup precomputed[param] (possibly the comma-ok form)
+		if ex, isEx := v.(*ssa.Extract); isEx && ex.Index == 0 {
+			v = ex.Tuple
+		}
+		if lk, isLk := v.(*ssa.Lookup); isLk {
+			if u, isU := lk.X.(*ssa.UnOp); isU {
+				if g, isG := u.X.(*ssa.Global); isG && g.Name() == "precomputed" && lk.Index == ssa.Value(ft.Params[0]) {
+					okV = true
+				}
+			}
+		}
+		c.Check("C35.R5", r, "FindTags returns the bundled table entry of the requested count itself", okV,
+			"result "+detail+": only the bundled tables are validated (distinct slots, balance within one for every cluster size); a prefix of a larger table is the lowest slots of that table, all on the first nodes")
+	})
+	c.Anchor("C35.R5", "successful returns of FindTags", n >= 1)
+}
+
 func isTupleWithStrSlice(t types.Type) bool {
 	tp, ok := t.(*types.Tuple)
 	if !ok {
